@@ -16,6 +16,21 @@ var (
 	lockCache = map[*load.Program]*an.Locksets{}
 )
 
+// Release drops everything cached for a program so that it can be garbage collected (many variants are analysed
+// in one process).
+func Release(p *load.Program) {
+	if p == nil {
+		return
+	}
+	lockMu.Lock()
+	delete(lockCache, p)
+	lockMu.Unlock()
+	declMu.Lock()
+	delete(declCache, p)
+	declMu.Unlock()
+	p.Release()
+}
+
 // isAPI: callable from outside the module (exported function, or exported method of an exported type).
 func isAPI(fn *ssa.Function) bool {
 	if fn.Parent() != nil || fn.Synthetic != "" {
